@@ -38,7 +38,7 @@ Hipótesis:
 */
 
 use std::{
-    collections::{HashMap, HashSet},
+    collections::{BTreeMap, HashSet},
     fmt, str,
 };
 
@@ -349,7 +349,8 @@ impl Components {
                     .collect::<Vec<_>>(),
             );
 
-            let mut q_out_by_srv: HashMap<Service, Vec<f32>> = HashMap::new();
+            // Mapa ordenado: el reparto y el orden de los auxiliares generados no dependen del orden de iteración
+            let mut q_out_by_srv: BTreeMap<Service, Vec<f32>> = BTreeMap::new();
             for component in &self.data {
                 if let Energy::Out(e) = component {
                     if e.id == id {
